@@ -10,7 +10,8 @@ Local Open Scope N_scope.
 
 Definition rt_cfg : config :=
   {| cf_show_esc := rt_show_escapes; cf_look_esc := rt_look_escapes; cf_look_cont := rt_look_continue;
-     cf_float_look_long := rt_float_look_long; cf_int_signext := rt_scan_int_signext |}.
+     cf_float_look_long := rt_float_look_long; cf_int_signext := rt_scan_int_signext;
+     cf_lit_measure := rt_scan_lit_measures; cf_pct_measure := rt_scan_pct_measures |}.
 
 (* the shape of the surrounding C code the model encodes is still the one found by genx_rt.py *)
 Lemma rt_shape : (rt_show_default_ok && rt_show_quotes_ok && rt_int_show_li && rt_int_look_li
@@ -32,10 +33,10 @@ Lemma rt_int_roundtrip : forall z rest, int64 z -> stops_int rest ->
   look_value rt_cfg TInt (show_value rt_cfg (VInt z) ++ rest) = Some (VInt z, length (show_value rt_cfg (VInt z))).
 Proof. intros z rest Hz Hr. apply (show_value_reads rt_cfg (VInt z) rest rt_cfg_ok Hz Hr). Qed.
 
-Lemma rt_show_seq_string : forall its pre rest, show_seq_ok rt_cfg its rest ->
+Lemma rt_show_seq_string : forall its pre rest, show_seq_ok rt_cfg its rest -> lits_ok rt_cfg its rest ->
   scan_str rt_cfg (fst (print_to_string rt_cfg pre (length pre) its) ++ rest) (length pre) (map sitem_of its) []
   = SOk (values_of its) (snd (print_to_string rt_cfg pre (length pre) its)).
-Proof. intros. now apply show_seq_roundtrip_string; [apply rt_cfg_ok|]. Qed.
+Proof. intros. now apply show_seq_roundtrip_string; [apply rt_cfg_ok| |]. Qed.
 
 Lemma rt_show_seq_file : forall its old rest, show_seq_ok rt_cfg its rest -> lits_ok rt_cfg its rest ->
   scan_file rt_cfg (skipn (length old) (fst (print_to_file rt_cfg old (length old) its) ++ rest)) (length old)
@@ -69,7 +70,49 @@ Proof.
 Qed.
 
 Example ex_lits_ok : lits_ok rt_cfg ex_items ex_rest.
-Proof. cbn [lits_ok ex_items]. repeat split; (left; vm_compute; reflexivity) || (right; vm_compute; reflexivity). Qed.
+Proof. vm_compute. repeat split; (left; reflexivity) || (right; reflexivity). Qed.
+
+(* literals with white space at the end and with a '%': matched by their own text when no white space follows *)
+Definition ex_items_pct : list pitem :=
+  [PShow (VInt 50); PLit [37; 32; 111; 102; 32]; PShow (VStr [120]); PLit [44; 32]; PShow (VInt (-1)); PLit [32; 37; 37]].
+
+Example ex_lits_ok_pct : lits_ok rt_cfg ex_items_pct ex_rest /\ show_seq_ok rt_cfg ex_items_pct ex_rest.
+Proof.
+  split.
+  - vm_compute. repeat split; (left; reflexivity) || (right; reflexivity).
+  - vm_compute. repeat split; try (intros; discriminate); try lia; repeat constructor; try discriminate.
+Qed.
+
+Example ex_pct_run :
+  scan_file rt_cfg (print_items rt_cfg ex_items_pct ++ ex_rest) 0 (map sitem_of ex_items_pct) []
+  = SOk [VInt 50; VStr [120]; VInt (-1)] 17.
+Proof. vm_compute. reflexivity. Qed.
+
+(* D22 / D23 as found: pos advanced by the length of a literal piece (File: the white-space directive had
+   eaten the padding of the next number) and by 2 for "%%" (one character) *)
+Definition cfg_old_literals : config :=
+  {| cf_show_esc := rt_show_escapes; cf_look_esc := rt_look_escapes; cf_look_cont := true;
+     cf_float_look_long := true; cf_int_signext := true; cf_lit_measure := false; cf_pct_measure := false |}.
+
+Definition spec_5li : nspec := {| n_conv := 105; n_long := true; n_plus := false; n_space := false;
+                                  n_zero := false; n_alt := false; n_width := 5; n_prec := None |}.
+
+Lemma rt_literal_length_refuted :
+  let its := [PShow (VStr [97; 98]); PLit [32]; PNum spec_5li (VInt 42)] in
+  let sits := [SLook TStr; SLit [32]; SNum spec_li] in
+  length (print_items cfg_old_literals its) = 10%nat /\
+  scan_str cfg_old_literals (print_items cfg_old_literals its) 0 sits [] = SOk [VStr [97; 98]; VInt 42] 10 /\
+  scan_file cfg_old_literals (print_items cfg_old_literals its) 0 sits [] = SOk [VStr [97; 98]; VInt 42] 7 /\
+  scan_file rt_cfg (print_items rt_cfg its) 0 sits [] = SOk [VStr [97; 98]; VInt 42] 10.
+Proof. vm_compute. repeat split; reflexivity. Qed.
+
+Lemma rt_percent_two_refuted :
+  let its := [PShow (VInt 5); PLit [37]; PShow (VInt 7)] in
+  let sits := [SLook TInt; SLit [37]; SLook TInt] in
+  print_items cfg_old_literals its = [53; 37; 55] /\
+  scan_str cfg_old_literals (print_items cfg_old_literals its) 0 sits [] = SRaise [VInt 5] /\
+  scan_str rt_cfg (print_items rt_cfg its) 0 sits [] = SOk [VInt 5; VInt 7] 3.
+Proof. vm_compute. repeat split; reflexivity. Qed.
 
 Example ex_show_seq_run :
   scan_str rt_cfg ([112; 112] ++ print_items rt_cfg ex_items ++ [32; 120]) 2 (map sitem_of ex_items) []
@@ -81,12 +124,12 @@ Proof. vm_compute. reflexivity. Qed.
 Lemma rt_cfg_ok_float : config_ok_float rt_cfg.
 Proof. split; [exact rt_cfg_ok | vm_compute; reflexivity]. Qed.
 
-Lemma rt_seq_string : forall its sits pre rest, wf_seq rt_cfg its sits rest ->
+Lemma rt_seq_string : forall its sits pre rest, wf_seq rt_cfg its sits rest -> lits_ok rt_cfg its rest ->
   exists vs',
     scan_str rt_cfg (fst (print_to_string rt_cfg pre (length pre) its) ++ rest) (length pre) sits []
     = SOk vs' (snd (print_to_string rt_cfg pre (length pre) its))
     /\ Forall2 value_close (values_of its) vs'.
-Proof. intros. now apply wf_seq_roundtrip_string; [apply rt_cfg_ok_float|]. Qed.
+Proof. intros. now apply wf_seq_roundtrip_string; [apply rt_cfg_ok_float| |]. Qed.
 
 Lemma rt_seq_file : forall its sits old rest, wf_seq rt_cfg its sits rest -> lits_ok rt_cfg its rest ->
   exists vs',
@@ -111,7 +154,7 @@ Definition spec_d : nspec := {| n_conv := 100; n_long := false; n_plus := false;
                                 n_zero := false; n_alt := false; n_width := 0; n_prec := None |}.
 Definition cfg_no_signext : config :=
   {| cf_show_esc := rt_show_escapes; cf_look_esc := rt_look_escapes; cf_look_cont := true;
-     cf_float_look_long := true; cf_int_signext := false |}.
+     cf_float_look_long := true; cf_int_signext := false; cf_lit_measure := true; cf_pct_measure := true |}.
 
 Lemma rt_scan_d_zero_extends_refuted :
   exists z, (- two31 <= z < two31)%Z /\
